@@ -195,6 +195,16 @@ def check_candidate(ctx, s):
     ctx.raises("get_notes/invalid-key", (NoteFormatError,), keys.get_notes, s)
     _fill_cache(ctx)
     ctx.raises("get_notes/invalid-key/all-keys-cached", (NoteFormatError,), keys.get_notes, s)
+    # the same with the memo table filled in other orders (minor keys before their relative majors; minor keys only)
+    for order in (list(reversed(T.ALL_KEYS)), [k for k in T.ALL_KEYS if k[0].islower()]):
+        _clear_cache()
+        for k in order:
+            try:
+                keys.get_notes(k)
+            except Exception:  # noqa - reported by the case of that key
+                pass
+        ctx.raises("get_notes/invalid-key/keys-cached-in-another-order", (NoteFormatError,), keys.get_notes, s)
+        ctx.raises("third/invalid-key/keys-cached-in-another-order", (NoteFormatError,), intervals.third, "G", s)
     ctx.raises("relative_major/invalid-key", (NoteFormatError,), keys.relative_major, s)
     ctx.raises("relative_minor/invalid-key", (NoteFormatError,), keys.relative_minor, s)
     if s != "":
